@@ -573,6 +573,68 @@ for splice, bufsz in modes:
             if not THOROUGH and bufsz != 65536 and (li + ci) % 3 != 0:
                 continue
             cells.append((lname, cname, splice, bufsz, pa))
+# ---- in parallel with the matrix: a tunnel that shares its upstream connection (the QUIC connector multiplexes every
+#      request over one connection) while ANOTHER request through the same connector is not answered by the upstream
+#      (its origin swallows connection attempts) and is given up: the tunnel's byte streams are not touched by that
+sibling_result = {}
+def sibling_failure():
+    try:
+        pBs, pbs = mk_hopB(True, 65536)
+        pAs, pas = mk_hopA('quic', pbs, True, 65536)
+        hole = socket.socket(); hole.setsockopt(socket.SOL_SOCKET, socket.SO_REUSEADDR, 1); hole.bind(('127.0.0.1', 0)); hole.listen(0)
+        fillers = []
+        dropping = False
+        for _ in range(8):
+            f = socket.socket(); f.settimeout(0.3)
+            try:
+                f.connect(hole.getsockname()); fillers.append(f)
+            except OSError:
+                f.close(); dropping = True
+                break
+        if not dropping:
+            sibling_result['skipped'] = 'could not make the kernel drop connection attempts'
+            return
+        tok = new_tok()
+        s, rest = open_tunnel('http', pas, origin.port, f'echo {tok}\n'.encode())
+        s.settimeout(5)
+        def unanswered():
+            try:
+                x, code, head, r = http_connect(pas['http'], '127.0.0.1:%d' % hole.getsockname()[1], timeout=25)
+                sibling_result['sibling_answer'] = code
+                x.close()
+            except OSError as e:
+                sibling_result['sibling_answer'] = type(e).__name__
+        th = threading.Thread(target=unanswered, daemon=True); th.start()
+        t0 = time.time()
+        n = 0
+        bad = None
+        while time.time() - t0 < 13.0 and bad is None:
+            msg = pattern(64, n & 0xff) + b'%08d' % n
+            try:
+                s.sendall(msg)
+                got = recv_exact(s, len(msg), 4)
+            except OSError as e:
+                got = b''
+            if got != msg:
+                bad = f'message {n} ({time.time() - t0:.1f} s into the scenario): sent {len(msg)} bytes, got {len(got)} back'
+            n += 1
+            time.sleep(0.05)
+        if bad is None:
+            blob = pattern(1 << 20, 77)
+            r = duplex(s, blob, len(blob))
+            if r != blob:
+                bad = f'1 MiB after the sibling was given up: {len(r)} of {len(blob)} bytes came back' + ('' if len(r) != len(blob) else ' (changed)')
+        sibling_result.update({'messages': n, 'broken': bad})
+        for f in fillers:
+            f.close()
+        hole.close()
+        try: s.close()
+        except OSError: pass
+        pAs.stop(); pBs.stop()
+    except Exception as e:
+        sibling_result['machinery'] = repr(e)
+sibling_thread = threading.Thread(target=sibling_failure, daemon=True)
+sibling_thread.start()
 results = run_parallel(cells, run_cell, workers=16)
 for cell, res in zip(cells, results):
     lname, cname, splice, bufsz, pa = cell
@@ -591,6 +653,15 @@ for p in procs:
         chk.violation('process', 'proxy-died', f'exit {p.returncode()}: {p.log()[-300:]}', {})
     p.stop()
 origin.stop(); banner_origin.stop(); deaf.stop()
+sibling_thread.join(60)
+evals += 1
+if sibling_thread.is_alive() or 'machinery' in sibling_result:
+    machinery(f'sibling-failure scenario: {sibling_result.get("machinery", "did not finish")}')
+if 'skipped' not in sibling_result:
+    distinct.add(('sibling-failure', sibling_result.get('broken') is None))
+    if sibling_result.get('broken'):
+        chk.violation('tunnel.http->quic', 'stream-broken-by-a-sibling-request-that-failed', f'http -> quic: a tunnel exchanging messages while another request through the same connector went unanswered (answer to it: {sibling_result.get("sibling_answer")}): {sibling_result["broken"]}', {'result': {k: str(v) for k, v in sibling_result.items()}})
+samples.append({'sibling_failure': {k: str(v) for k, v in sibling_result.items()}})
 if evals < 100 or len(distinct) < 20:
     machinery(f'vacuous: evals={evals} distinct={len(distinct)}')
 cov = {'evaluations': evals, 'distinct_nontrivial': len(distinct), 'transitions': evals, 'traces_validated_against_impl': evals,
